@@ -1399,12 +1399,14 @@ class ProbabilisticTensorDictSequential(TensorDictSequential):
                 tensordict_exec, _requires_sample=self._requires_sample
             )
 
-        if self.inplace is True:
-            tensordict_out = tensordict
-        elif self.inplace is False:
-            tensordict_out = TensorDict()
-        elif self.inplace == "empty":
-            tensordict_out = tensordict.empty()
+        if tensordict_out is None:
+            # (a tensordict_out given by the caller takes precedence, as in TensorDictSequential.forward)
+            if self.inplace is True:
+                tensordict_out = tensordict
+            elif self.inplace is False:
+                tensordict_out = TensorDict()
+            elif self.inplace == "empty":
+                tensordict_out = tensordict.empty()
 
         if tensordict_out is not None:
             result = tensordict_out
